@@ -334,6 +334,7 @@ func init() {
 			ruleTagRound6(c)
 			ruleTagRound6b(c)
 			ruleTagRound7(c)
+			ruleTagRound8(c)
 		},
 	})
 }
